@@ -791,6 +791,7 @@ def _flex_bending(
   nflex: int,
   body_rootid: wp.array[int],
   flex_dim: wp.array[int],
+  flex_interp: wp.array[int],
   flex_vertadr: wp.array[int],
   flex_edgeadr: wp.array[int],
   flex_edgenum: wp.array[int],
@@ -824,6 +825,10 @@ def _flex_bending(
     return
 
   if flex_dim[f] != 2:
+    return
+
+  # interpolated flexes store bending per node cell (handled by _flex_passive_bend_interp), not 17 values per edge
+  if flex_interp[f] != 0:
     return
 
   if flex_edgeflap[edgeid][1] == -1:
@@ -1358,6 +1363,7 @@ def passive(m: Model, d: Data):
         m.nflex,
         m.body_rootid,
         m.flex_dim,
+        m.flex_interp,
         m.flex_vertadr,
         m.flex_edgeadr,
         m.flex_edgenum,
